@@ -28,13 +28,15 @@ Spec == Init /\ [][Next]_tr
 \* results that denote a name: exactly one whole token
 NameLike  == {"reference", "highlight", "rename_edit", "prepare_rename", "semantic"}
 \* results that denote a name or a binder pattern: whole tokens
-TokenLike == NameLike \cup {"goto_focus", "hover"}
+TokenLike == NameLike \cup {"hover"}
 
 InBounds(r)   == r.f >= 0 /\ r.f < r.nf /\ 0 <= r.s /\ r.s <= r.e /\ r.e <= r.len
 OnBoundary(r) == r.bs /\ r.be
 FocusInside(r) == r.kind = "goto_focus" => (r.os <= r.s /\ r.e <= r.oe)
 WholeTokens(r) == /\ (r.kind \in NameLike => r.ntok = 1)
                   /\ (r.kind \in TokenLike => r.ntok >= 1)
+                  \* a definition target is a name / binder pattern (whole tokens) or, for a module, the start of its file
+                  /\ (r.kind = "goto_focus" => (r.ntok >= 1 \/ (r.s = 0 /\ r.e = 0)))
                   \* a completion replaces the identifier being typed or nothing
                   /\ (r.kind = "completion_source" => r.ntok \in {0, 1})
 
